@@ -1219,8 +1219,12 @@ class Exec:
         val = _merge_values([o.value for o in outs], conds)
         if val is None:
             return None
-        for o, c in zip(outs, conds):
-            st.log += [e for e in o.st.log[len(st.log):]] if False else []
+        # heap cells allocated by the callee (Box::new, vec![..]) may be referenced from the merged value: keep them
+        # (cell ids are globally unique, so the union over the explored paths cannot clash)
+        for o in outs:
+            for cid, cv in o.st.cells.items():
+                if cid not in st.cells and cid[0] != "f":
+                    st.cells[cid] = cv
         self.merged_calls += 1
         return Outcome("return", st, value=val)
 
